@@ -21,6 +21,7 @@ void vx_merge_abs(size_t to, size_t from, bool keep_end_state, bool mark_from_as
 __CPROVER_requires(to < b_sm.current_size && from < b_sm.current_size)
 __CPROVER_assigns(g_mg_n, g_mg_to, g_mg_from, g_mg_keep, g_mg_mark, __CPROVER_object_upto(b_sm.the_data, sizeof(b_sm.the_data)))
 __CPROVER_ensures((__CPROVER_old(g_mg_n) < 1000 ? g_mg_n == __CPROVER_old(g_mg_n) + 1 : g_mg_n == __CPROVER_old(g_mg_n)) && g_mg_to == to && g_mg_from == from && g_mg_keep == keep_end_state && g_mg_mark == mark_from_as_unreachable);
+unsigned g_mes_cnt; size32_t g_mes_start, g_mes_len; size16_t g_mes_idx;   /* ghost record of mark_end_states(slice, idx) */
 size_t g_ri, g_rc; bool g_copy_ok;   /* ghost: copy number and character for dfa_builder::rep */
 /* char_subset(char_range(c)): the set itself is irrelevant to the allocation contracts (decoding is unit regex_decode) */
 static inline struct char_subset vx_char_subset_of_range(char a, char b) { struct char_subset s; return s; }
